@@ -275,3 +275,18 @@ func VerifC18_BlueGreenFinalisingWaitsForEveryTask() { VerifC04_BlueGreenFinalis
 // The Upgrade sub-state drives the BatchRelease too: for a step without traffic that replaces every stable pod the
 // clean-up in front of the step has run and reported done before (C04.step.cleanupDoneBeforeAllStablePodsReplaced).
 func VerifC04_CanaryUpgradeStep() { c02Canary(1) }
+
+// C04: a rollout disabled or deleted while a rollback or a completion is being cleaned up starts its own task order
+// from the top (calculateRolloutStatus → restartFinalising), whatever cursor the earlier clean-up left and whichever
+// style the rollout has: continuing from the old cursor would skip RestoreStableService / RemoveCanaryService and
+// leave the stable Service pinned to a revision whose pods are about to be replaced (seed C04-13: the cursor was
+// cleared for the canary style only).  Same obligations as C05's.
+func VerifC04_CanaryDisableDuringAnotherCleanupSkipsNoTask() {
+	c05ExitDuringCleanup(false, true, "C04.canary.reasonChange.disable")
+}
+func VerifC04_BlueGreenDisableDuringAnotherCleanupSkipsNoTask() {
+	c05ExitDuringCleanup(true, true, "C04.bluegreen.reasonChange.disable")
+}
+func VerifC04_BlueGreenDeletionDuringAnotherCleanupSkipsNoTask() {
+	c05ExitDuringCleanup(true, false, "C04.bluegreen.reasonChange.delete")
+}
